@@ -5,7 +5,12 @@ import fcntl, hashlib, json, os, random, re, struct, subprocess, sys, time
 from fractions import Fraction
 
 ROOT = os.path.dirname(os.path.dirname(os.path.abspath(__file__)))
-WORK = os.path.join(ROOT, ".work")
+# The registered checks always build from /repo. VERIF_REPO is a tooling-only override (tools/mutant.py: a seeded change applied
+# in a scratch worktree): everything then lives in a separate work directory and the evidence of /repo is not touched.
+REPO = os.environ.get("VERIF_REPO", "/repo")
+ALT = REPO != "/repo"
+WORK = os.path.join(ROOT, ".work-alt" if ALT else ".work")
+EVID = os.path.join(WORK, "evidence") if ALT else os.path.join(ROOT, "evidence")
 COQ = os.path.join(ROOT, "coq")
 VRUN = os.path.join(WORK, "vrun")
 VMODEL = os.path.join(ROOT, "model", "vmodel")
@@ -33,10 +38,14 @@ class Lock:
 def build_vrun():
     """Rebuild the Go interpreter from /repo's current working tree (hooks on)."""
     with Lock("gobuild"):
-        if not os.path.exists(os.path.join(ROOT, "harness", "go.sum")) or \
-           open(os.path.join(ROOT, "harness", "go.sum")).read() != open("/repo/go.sum").read():
-            open(os.path.join(ROOT, "harness", "go.sum"), "w").write(open("/repo/go.sum").read())
-        rc, out, err = sh(["go", "build", "-tags", "verif", "-o", VRUN, "."], cwd=os.path.join(ROOT, "harness"), env=GOENV, timeout=900)
+        hdir = os.path.join(ROOT, "harness")
+        if ALT:
+            hdir = os.path.join(WORK, "harness"); sh("rm -rf %s && mkdir -p %s && cp %s/*.go %s/go.mod %s/" % (hdir, hdir, os.path.join(ROOT, "harness"), os.path.join(ROOT, "harness"), hdir))
+            gm = open(os.path.join(hdir, "go.mod")).read().replace("=> /repo", "=> " + REPO); open(os.path.join(hdir, "go.mod"), "w").write(gm)
+        if not os.path.exists(os.path.join(hdir, "go.sum")) or \
+           open(os.path.join(hdir, "go.sum")).read() != open(os.path.join(REPO, "go.sum")).read():
+            open(os.path.join(hdir, "go.sum"), "w").write(open(os.path.join(REPO, "go.sum")).read())
+        rc, out, err = sh(["go", "build", "-tags", "verif", "-o", VRUN, "."], cwd=hdir, env=GOENV, timeout=900)
         return rc == 0, (out + err)
 
 def build_coq():
@@ -325,7 +334,7 @@ class Report:
         self.pid, self.tier, self.seed = pid, tier, seed
         self.t0 = time.time(); self.violations = []; self.known = []; self.coverage = {}
         self.assumptions = []; self.notes = []
-        os.makedirs(os.path.join(WORK, pid), exist_ok=True); os.makedirs(os.path.join(ROOT, "evidence"), exist_ok=True)
+        os.makedirs(os.path.join(WORK, pid), exist_ok=True); os.makedirs(EVID, exist_ok=True)
         for f in os.listdir(os.path.join(WORK, pid)):
             if f.endswith(".replay.json"): os.remove(os.path.join(WORK, pid, f))
     def violation(self, replay_name, content, found_input=True, key=None):
@@ -343,7 +352,7 @@ class Report:
         ev = {"property_id": self.pid, "tier": self.tier, "seed": self.seed, "level": level,
               "coverage": self.coverage, "assumptions": self.assumptions, "wall_s": round(time.time() - self.t0, 2),
               "violations": len(self.violations)}
-        json.dump(ev, open(os.path.join(ROOT, "evidence", self.pid + ".json"), "w"), indent=1)
+        json.dump(ev, open(os.path.join(EVID, self.pid + ".json"), "w"), indent=1)
         seen = set()
         for path, found in self.violations:
             if path in seen: continue
